@@ -38,6 +38,9 @@ pub struct Lz77Params {
     /// code length 258 as symbol 284 with extra bits 31 instead of symbol 285 (legal, never
     /// emitted by the mainstream compressors)
     pub irregular_258: bool,
+    /// padding bits (before a stored block's LEN, after the final block) taken from this pattern
+    /// instead of zero: legal, every inflater ignores them
+    pub pad_bits: u8,
 }
 
 impl Lz77Params {
@@ -70,12 +73,13 @@ impl Lz77Params {
             empty_run: if rng.chance(1, 6) { *rng.pick(&[1usize, 2, 5, 16, 17, 18, 40]) } else { 0 },
             literals_only: false,
             irregular_258: rng.chance(1, 10),
+            pad_bits: if rng.chance(1, 8) { rng.range(1, 255) as u8 } else { 0 },
         }
     }
 
     pub fn describe(&self) -> String {
         format!(
-            "lz77(w={},h={},ins={}{},lazy={:?},nice={},chain={},d3={},start={},far={},blk={},stored/{},empty={},lit={},irr258={})",
+            "lz77(w={},h={},ins={}{},lazy={:?},nice={},chain={},d3={},start={},far={},blk={},stored/{},empty={},lit={},irr258={},pad={:02x})",
             self.window_bits,
             self.hash_bytes,
             self.insert_limit,
@@ -90,7 +94,8 @@ impl Lz77Params {
             self.stored_every,
             self.empty_run,
             self.literals_only as u8,
-            self.irregular_258 as u8
+            self.irregular_258 as u8,
+            self.pad_bits
         )
     }
 }
@@ -242,6 +247,8 @@ struct BitWriter {
     out: Vec<u8>,
     acc: u64,
     n: u32,
+    /// pattern for the padding bits in front of a stored block's LEN field and after the last block
+    pad: u8,
 }
 
 impl BitWriter {
@@ -266,7 +273,8 @@ impl BitWriter {
     }
     fn align(&mut self) {
         if self.n > 0 {
-            self.bits(0, 8 - self.n);
+            let k = 8 - self.n;
+            self.bits((self.pad as u32) & ((1 << k) - 1), k);
         }
     }
 }
@@ -294,6 +302,7 @@ pub fn encode(data: &[u8], p: &Lz77Params) -> Vec<u8> {
         out: Vec::with_capacity(data.len() / 2 + 64),
         acc: 0,
         n: 0,
+        pad: p.pad_bits,
     };
     if toks.is_empty() {
         // empty final fixed block
